@@ -144,7 +144,17 @@ def run(sc, tape_mode="log", script=None, provider=None):
     if sc.n_inner != 1:
         kw["n_inner_samples"] = sc.n_inner
     if sc.cls == "interval":
-        ex = IntervalSage(model, names, loss, interval_length=sc.interval, storage_length=sc.storage_len, **kw)
+        if sc.imputer_kind == "product" or sc.foreign:
+            # the explainer is handed its storage and imputer: the window is the supplied IntervalStorage (whatever
+            # storage_length says), sampling follows the supplied imputer
+            from ixai.storage import IntervalStorage
+            from ixai.imputer import MarginalImputer
+            st_ = IntervalStorage(size=sc.storage_len, store_targets=True)
+            imp_ = MarginalImputer(model, "product" if sc.imputer_kind == "product" else "joint", st_)
+            ex = IntervalSage(model, names, loss, interval_length=sc.interval, storage_length=sc.storage_len + 3, storage=st_,
+                              imputer=imp_, **kw)
+        else:
+            ex = IntervalSage(model, names, loss, interval_length=sc.interval, storage_length=sc.storage_len, **kw)
     else:
         if sc.imputer_kind == "product":
             from ixai.storage import BatchStorage
@@ -195,7 +205,7 @@ def run(sc, tape_mode="log", script=None, provider=None):
     n_eff = sc.n_override if sc.n_override is not None else sc.n_inner
     # a user-supplied product imputer is what the default mode samples with; the original mode never uses the imputer
     trace = {"cls": sc.cls, "d": d, "interval": sc.interval, "storage_len": sc.storage_len, "key": sc.key(), "calls": [],
-             "strategy": "product" if (sc.imputer_kind == "product" and sc.cls == "batch" and sc.mode in ("many", "one")) else "joint"}
+             "strategy": "product" if (sc.imputer_kind == "product" and (sc.cls == "interval" or sc.mode in ("many", "one"))) else "joint"}
     floats_ok = []
     updated = []
     with Tape(mode=tape_mode, script=script, sink=sink) as tape:
@@ -343,7 +353,9 @@ def run(sc, tape_mode="log", script=None, provider=None):
             else:
                 held = []          # rows the storage holds (a call that failed inside the storage update stored nothing)
                 for ci, (x, y) in enumerate(data):
-                    kw2 = {"verbose": False, "original_sage": sc.mode == "one_original"}
+                    kw2 = {"verbose": False}
+                    if sc.mode == "one_original" or sc.seed % 2:      # (the documented default is left to the library half of the time)
+                        kw2["original_sage"] = sc.mode == "one_original"
                     if sc.n_override is not None:
                         kw2["n_inner_samples"] = sc.n_override
                     rows_now = held + [sc.rows[ci]]
@@ -359,7 +371,11 @@ def run(sc, tape_mode="log", script=None, provider=None):
                     updated.append((xs, y))
                 win = updated[-sc.storage_len:] if sc.storage_len > 0 else []
                 seen_before = int(ex.seen_samples)
-                kw2 = {"verbose": False, "force_explain": force, "update_storage": upd}
+                kw2 = {"verbose": False}
+                if force or (sc.seed + ci) % 2:                      # (documented defaults left to the library half of the time)
+                    kw2["force_explain"] = force
+                if not upd or (sc.seed + ci) % 3 == 0:
+                    kw2["update_storage"] = upd
                 if sc.n_override is not None:
                     kw2["n_inner_samples"] = sc.n_override
                 c = one_call(ci, lambda x=x, y=y: ex.explain_one(x, y, **kw2), win,
